@@ -16,6 +16,10 @@ def opts(r):
         o['buffer'] = True
     if r.random() < 0.3:
         o['color'] = True
+    if r.random() < 0.2:
+        o['progress'] = True
+    if r.random() < 0.1:
+        o['verbose'] = 4
     return o
 
 
